@@ -47,7 +47,7 @@ static int locate_out (program_t *);
  */
 void save_binary (program_t * prog, mem_block_t * includes, mem_block_t * patches) {
 
-  char file_name_buf[200];
+  char file_name_buf[PATH_MAX];
   char *file_name = file_name_buf;
   FILE *f;
   int i;
@@ -92,6 +92,12 @@ void save_binary (program_t * prog, mem_block_t * includes, mem_block_t * patche
         }
     }
 
+  /* a program name is as long as a path can be: "<dir>/<name>" has to fit, or nothing is saved */
+  if (strlen (CONFIG_STR (__SAVE_BINARIES_DIR__)) + 1 + strlen (prog->name) >= sizeof (file_name_buf))
+    {
+      opt_trace (TT_COMPILE|1, "name too long for save_binary, not saved");
+      return;
+    }
   strcpy (file_name, CONFIG_STR (__SAVE_BINARIES_DIR__));
   if (file_name[0] == '/')
     file_name++;
@@ -419,8 +425,8 @@ sort_function_table (program_t * prog)
  */
 program_t *load_binary (const char *name) {
 
-  char file_name_buf[400];
-  char *buf, *iname, *file_name = file_name_buf, *file_name_two = &file_name_buf[200];
+  char file_name_buf[PATH_MAX], file_name_two_buf[PATH_MAX];
+  char *buf, *iname, *file_name = file_name_buf, *file_name_two = file_name_two_buf;
   int fd;
   FILE *f;
   int i;
@@ -439,7 +445,9 @@ program_t *load_binary (const char *name) {
 
   if (!CONFIG_STR(__SAVE_BINARIES_DIR__))
     return OUT_OF_DATE;
-  sprintf (file_name, "%s/%s", CONFIG_STR (__SAVE_BINARIES_DIR__), name);
+  if (snprintf (file_name, sizeof (file_name_buf), "%s/%s", CONFIG_STR (__SAVE_BINARIES_DIR__), name)
+      >= (int) sizeof (file_name_buf))
+    return OUT_OF_DATE;		/* save_binary() does not save under such a name either */
   if (file_name[0] == '/')
     file_name++;
   len = strlen (file_name);
@@ -632,7 +640,17 @@ program_t *load_binary (const char *name) {
        * Check times against inherited source.  If saved binary of
        * inherited prog exists, check against it also.
        */
-      sprintf (file_name_two, "%s/%s", CONFIG_STR (__SAVE_BINARIES_DIR__), buf);
+      file_name_two = file_name_two_buf;
+      if (snprintf (file_name_two, sizeof (file_name_two_buf), "%s/%s", CONFIG_STR (__SAVE_BINARIES_DIR__), buf)
+          >= (int) sizeof (file_name_two_buf))
+        {
+          opt_trace (TT_COMPILE|1, "inherited program name too long.");
+          fclose (f);
+          free_string (p->name);
+          FREE (p);
+          FREE (buf);
+          return OUT_OF_DATE;
+        }
       if (file_name_two[0] == '/')
         file_name_two++;
       len = strlen (file_name_two);
